@@ -1,14 +1,15 @@
 // Command c06m: the matrix-typing part of property C06.
-//  K: generated literal matrices (scalars of every literal class, expression
-//     scalars of known types, nested arrays / objects, expression rows,
-//     include lists with assigns and expression elements, include expressions)
-//     are typed by the real RuleExpression.checkMatrix (verif-tagged
-//     VerifMatrixTypeOf) and by the Coq model Expr/MatrixTy.v.
-//  Oracle (the property verbatim, end to end through Linter.Lint): for every
-//     single-point loosening of the matrix (a literal scalar, a whole value, a
-//     row, an include value replaced by `${{ fromJSON(vars.X) }}`, i.e. a value
-//     whose type cannot be known) every expression over `matrix` that was
-//     accepted before must still be accepted.
+//
+//	K: generated literal matrices (scalars of every literal class, expression
+//	   scalars of known types, nested arrays / objects, expression rows,
+//	   include lists with assigns and expression elements, include expressions)
+//	   are typed by the real RuleExpression.checkMatrix (verif-tagged
+//	   VerifMatrixTypeOf) and by the Coq model Expr/MatrixTy.v.
+//	Oracle (the property verbatim, end to end through Linter.Lint): for every
+//	   single-point loosening of the matrix (a literal scalar, a whole value, a
+//	   row, an include value replaced by `${{ fromJSON(vars.X) }}`, i.e. a value
+//	   whose type cannot be known) every expression over `matrix` that was
+//	   accepted before must still be accepted.
 package main
 
 import (
@@ -613,6 +614,24 @@ func main() {
 			{"index-by-unknown", hdr + "    strategy:\n      matrix:\n        idx: [0, 1]\n        targets:\n          - [a, b]\n    steps:\n      - run: echo ${{ matrix.targets[matrix.idx] }}\n", hdr + "    strategy:\n      matrix:\n        idx: ['" + anyE + "']\n        targets:\n          - [a, b]\n    steps:\n      - run: echo ${{ matrix.targets[matrix.idx] }}\n"},
 			{"env-object", "on: push\nenv: ${{ fromJSON('{\"A\":\"b\"}') }}\njobs:\n  a:\n    runs-on: ubuntu-latest\n    steps:\n      - run: echo ${{ env.A }}\n", "on: push\nenv: " + anyE + "\njobs:\n  a:\n    runs-on: ubuntu-latest\n    steps:\n      - run: echo ${{ env.A }}\n"},
 		}
+		// the whole matrix given by an object: closed ({os: string}) -> open ({string => string} /
+		// config variables); the runner labels of a matrix row: array<string> -> array<any>
+		setupClosed := "  setup:\n    runs-on: ubuntu-latest\n    outputs:\n      os: ${{ steps.s.outputs.os }}\n    steps:\n      - id: s\n        run: echo\n"
+		setupOpen := "  setup:\n    uses: owner/repo/.github/workflows/setup.yml@v1\n"
+		build := func(m string) string {
+			return "  build:\n    needs: setup\n    strategy:\n      matrix: " + m + "\n    runs-on: ubuntu-latest\n    steps:\n      - run: echo ${{ matrix.os }} ${{ matrix.os == 'x' }}\n"
+		}
+		runner := func(el string) string {
+			return "on: push\njobs:\n  a:\n    strategy:\n      matrix:\n        runner:\n          - [self-hosted, linux]\n          - [self-hosted, " + el + "]\n    runs-on: ${{ matrix.runner }}\n    steps:\n      - run: echo\n"
+		}
+		sites = append(sites, []struct{ name, precise, loose string }{
+			{"matrix-from-needs-outputs", "on: push\njobs:\n" + setupClosed + build("${{ needs.setup.outputs }}"), "on: push\njobs:\n" + setupOpen + build("${{ needs.setup.outputs }}")},
+			{"matrix-from-vars", "on: push\njobs:\n" + setupClosed + build("${{ needs.setup.outputs }}"), "on: push\njobs:\n" + setupClosed + build("${{ vars }}")},
+			{"matrix-from-unknown", "on: push\njobs:\n" + setupClosed + build("${{ needs.setup.outputs }}"), "on: push\njobs:\n" + setupClosed + build(anyE)},
+			{"runs-on-array-element", runner("macos"), runner("'" + anyE + "'")},
+			{"runs-on-array", runner("macos"), "on: push\njobs:\n  a:\n    strategy:\n      matrix:\n        runner:\n          - [self-hosted, linux]\n          - " + anyE + "\n    runs-on: ${{ matrix.runner }}\n    steps:\n      - run: echo\n"},
+			{"runs-on-elements-expr", "on: push\njobs:\n  a:\n    runs-on: ${{ fromJSON('[\"a\",\"b\"]') }}\n    steps:\n      - run: echo\n", "on: push\njobs:\n  a:\n    runs-on: ${{ fromJSON(vars.LABELS) }}\n    steps:\n      - run: echo\n"},
+		}...)
 		for _, st := range sites {
 			pre, err1 := lintLines(st.precise)
 			post, err2 := lintLines(st.loose)
